@@ -30,6 +30,7 @@ fi
 fresh; cargo test --workspace --no-fail-fast --offline >/tmp/confirm_$ID.c 2>&1; C=$?
 PASSED=$(grep -E "^test result" /tmp/confirm_$ID.c | awk '{p+=$4; f+=$6} END {print p":"f}')
 git checkout -q -- .
+rm -f target/debug/deps/demo_* target/debug/demo_*; rm -rf target/debug/incremental
 echo "$ID: demo_without_change_rc=$A demo_with_change_rc=$B suite_with_change_rc=$C passed:failed=$PASSED"
 if [ $A -eq 0 ] && [ $B -ne 0 ] && [ $C -eq 0 ] && [ "$PASSED" = "215:0" ]; then
   mkdir -p /verif/seeded/$ID && cp "$M/patch.diff" "$DEMO" "$M/meta.json" /verif/seeded/$ID/ && echo "$ID: CONFIRMED"
